@@ -48,15 +48,15 @@ FindSpanBinary(p, U, nc, u) ==
 \* --- utilities of geomdl.knotvector -------------------------------------
 Linspace(a, b, num) ==
   IF a = b THEN <<a>> ELSE
-  IF num > 1 THEN [x \in 1..num |-> RAdd(a, RDiv(RMul(RI(x - 1), RSub(b, a)), RI(num - 1)))]
+  IF num > 1 THEN TLCEval([x \in 1..num |-> RAdd(a, RDiv(RMul(RI(x - 1), RSub(b, a)), RI(num - 1)))])
   ELSE <<a>>
 GenerateKV(p, nc, clamped) ==
   IF clamped THEN Rep(Zero, p) \o Linspace(Zero, One, nc - (p + 1) + 2) \o Rep(One, p)
   ELSE Linspace(Zero, One, p + nc - 1 + 2)
 NormalizeKV(U) ==
-  [i \in 1..Len(U) |-> RDiv(RSub(U[i], U[1]), RSub(Last(U), U[1]))]
+  TLCEval([i \in 1..Len(U) |-> RDiv(RSub(U[i], U[1]), RSub(Last(U), U[1]))])
 CheckKV(p, U, nc) == Len(U) = p + nc + 1 /\ ValidKV(U)
-AffineKV(U, a, b) == [i \in 1..Len(U) |-> RAdd(RMul(a, U[i]), b)]
+AffineKV(U, a, b) == TLCEval([i \in 1..Len(U) |-> RAdd(RMul(a, U[i]), b)])
 
 \* --- lattice of clamped knot vectors ------------------------------------
 \* vals: increasing sequence of interior knot values; pat[i] = multiplicity
